@@ -690,6 +690,15 @@ class Builtins:
                 if v is not None:
                     return v
             raise Raise(self.make_exc("KeyError", f"{k!r}"), I.where())
+        from . import gmode as _gm
+        if isinstance(o, _gm.SList):
+            if isinstance(k, bool) or not isinstance(k, int) or k < 0:
+                raise Unsupported(f"index {k!r} into a symbolic-length list")
+            # entries[k] for a known k >= 0: IndexError unless k < len
+            if not I.path.branch(o.length > k, "index-in-range"):
+                raise Raise(self.make_exc("IndexError", f"index {k} out of range"), I.where())
+            _gm.qm(I).add_index(z3.IntVal(k), o.length)
+            return o.elem(z3.IntVal(k))
         if isinstance(o, (list, tuple)):
             if isinstance(k, bool) or not isinstance(k, int):
                 raise Unsupported(f"symbolic index {k!r}")
